@@ -269,6 +269,14 @@ def run(out: Outcome) -> None:
             check_blocks(out, cls, p, rng.choice([p["min_num_instances"], 1, 2, 3, 30, 57, 100, p["min_num_instances"] // 2 + 1]), runners)
     for _ in range(2 * n_rand):
         check_flip(out, gen.rand_params(rng, "HDDMA"), gen.unit_stream(rng, rng.randint(10, 300)), runners)
+    # long streams (thousands of updates): means with step sizes 1/t far below any fixed floor, counters beyond 2^12
+    for cls in ("HDDMA", "HDDMW"):
+        for _ in range(3 if thorough else 1):
+            p = gen.rand_params(rng, cls, small=False)
+            n_long = rng.randint(4300, 5200)
+            cut = rng.randint(n_long // 2, n_long - 300)
+            p0, p1 = rng.choice([0.05, 0.2, 0.5]), rng.choice([0.1, 0.4, 0.9])
+            check_spec(out, cls, p, [float(rng.random() < p0) for _ in range(cut)] + [float(rng.random() < p1) for _ in range(n_long - cut)], runners)
     if "KF-C04-1" in out.findings:
         check_blocks(out, "HDDMW", {"alpha_d": 0.2, "alpha_w": 0.5, "lambda_": 0.1, "min_num_instances": 5}, 5, [])
     validated = corr.compare_batch(out, runners)
